@@ -347,7 +347,7 @@ def _inline_closure_calls(c, bodies, from_block):
     n = 0
     for bi in range(from_block, len(c["blocks"])):
         t = c["blocks"][bi]["term"]
-        if t["k"] != "call" or not re.search(r"ops::(function::)?(FnOnce::call_once|FnMut::call_mut|Fn::call)$", t["callee"]) or len(t["args"]) != 2:
+        if t["k"] != "call" or not t.get("callee") or not re.search(r"ops::(function::)?(FnOnce::call_once|FnMut::call_mut|Fn::call)$", t["callee"]) or len(t["args"]) != 2:
             continue
         cp = _closure_behind(c, t["args"][0])
         cb = bodies.get(cp) if cp else None
